@@ -124,6 +124,10 @@ type Knobs struct {
 	// that the connection handlers really run in parallel (real sync primitives,
 	// -race build); the cooperative scheduler has nothing to schedule then.
 	Burst bool `json:"burst,omitempty"`
+	// ReplyYield: the handler parks between "reply computed" and "reply serialised"
+	// (reply hook), so that other connections can run in between: a reply that
+	// aliases stored bytes which a later command rewrites in place shows up.
+	ReplyYield bool `json:"reply_yield,omitempty"`
 	// ViaStart (race sweep): the connections are accepted by the real server.Start
 	// (its accept loop, event loop and per-connection goroutines) through the
 	// listener hook, instead of being handed to Manager.Handle by the simulator.
@@ -405,6 +409,10 @@ func (w *World) run() {
 			}()
 			w.mgr.ExecCommand(w.ctx, argv(c), nil)
 		}()
+	}
+	server.VerifReplyHook = nil
+	if k.ReplyYield {
+		server.VerifReplyHook = func(net.Conn) { vsync.YieldPoint() }
 	}
 	vsync.Install(w.vs)
 
